@@ -52,6 +52,23 @@ def std_leaves(c: ast.Call, ev):
         data = bytes(ev.ev(c.args[0]))
         n = ev.ev(c.args[1]) if len(c.args) == 2 else 16
         return data + b"\xA5" * (-len(data) % n) if isinstance(n, int) and n > 0 else oe.NOT_MODELLED
+    if f == "random_bytes" and len(c.args) == 1 and not c.keywords:
+        k = ev.ev(c.args[0])
+        if isinstance(k, int) and 0 <= k < 4096:
+            return b"\xA5" * k  # random data is a leaf: a fixed filler marks where it goes
+    if f in ("swap16", "swap32", "misc.swap16", "misc.swap32") and len(c.args) == 1 and not c.keywords:
+        v = ev.ev(c.args[0])
+        w = 2 if f.endswith("16") else 4
+        if isinstance(v, int) and not isinstance(v, bool):
+            if not 0 <= v < (1 << (8 * w)):
+                raise oe.ModelRaise(oe.Outcome("raise", None, c))
+            return int.from_bytes(v.to_bytes(w, "big"), "little")
+    if f in ("re.match", "re.fullmatch", "re.search") and len(c.args) == 2 and not c.keywords:
+        import re
+        pat, subj = ev.ev(c.args[0]), ev.ev(c.args[1])
+        if isinstance(pat, str) and isinstance(subj, str):
+            m = getattr(re, f.split(".")[1])(pat, subj)
+            return ("match", m.group(0)) if m else None  # used for its truth value
     if f in ("align", "misc.align") and 1 <= len(c.args) <= 2 and not c.keywords:
         v = ev.ev(c.args[0])
         n = ev.ev(c.args[1]) if len(c.args) == 2 else 4
@@ -141,7 +158,13 @@ class RoundTrip:
         try:
             obj = self.ev(f"{self.cname}({args})", ctor_kwargs)
             for stmt in setup:
-                self.ev(stmt, {"obj": obj})
+                e = oe.Evaluator({"obj": obj}, self.sym, opaque_return=False, call_value=self.calls)
+                try:
+                    out = e.run(ast.parse(stmt).body)  # a statement: `obj.add_x(...)` or `obj.field = value`
+                except oe.Unsupported as ex:
+                    raise AnalysisError(f"round trip of {self.cname}: `{stmt}` left the fragment: {ex}")
+                if out.kind == "raise":
+                    return ("raise", "constructor", stmt), None, None
         except oe.ModelRaise as mr:
             return ("raise", "constructor", str(mr)), None, None
         try:
@@ -163,11 +186,19 @@ def check_classes(ctx, rule: str, relpath: str, table, extra_classes=None, leave
     """table: [(class name, [constructor keyword models ...])].  One obligation per class: on every model the exported bytes parse back
     to an object with the same fields, and exporting that object reproduces the bytes."""
     n = 0
-    for cname, models in table:
+    for entry in table:
+        cname, models = entry[0], entry[1]
+        opts = entry[2] if len(entry) > 2 else {}
+        ignore = set(opts.get("ignore", ()))  # fields that are not content (random padding), one reason each in the rule's table
         rt = RoundTrip(ctx, relpath, cname, leaves, sym_map, extra_classes)
         probs = []
         for kw in models:
             built, data, parsed = rt.run(kw)
+            if ignore and isinstance(built, dict) and isinstance(parsed, dict):
+                built = {k: v for k, v in built.items() if k not in ignore}
+                parsed = {k: v for k, v in parsed.items() if k not in ignore}
+            if opts.get("reexport") is False:
+                rt.data2 = bytes(data) if isinstance(data, (bytes, bytearray)) else data
             n += 1
             shown = {k: (v if not isinstance(v, (bytes, bytearray)) else v.hex()[:16]) for k, v in kw.items()}
             if isinstance(built, tuple) and built and built[0] == "raise":
